@@ -11,7 +11,7 @@ LEVEL_TEXT = ("A real MessagePassingComputation hosted on a real (not threaded) 
               "through the agent's real priority queue, is driven by generated operation histories: messages arriving "
               "from 1-3 senders, posts to a recording peer, start, pause, resume and pumping the queue the way "
               "Agent._run does. Model: every received message is handled exactly once, in the order of first "
-              "reception by the computation; every posted message reaches the peer exactly once in posting order. "
+              "reception by the computation; every posted message (two targets, several priorities) is handed to the agent's messaging exactly once, in posting order, with its priority. "
               "Histories up to 40 operations; sampling, not exhaustive.")
 LEVEL_NOTE = ("Trusted: the 20-line sequence model in this file. The agent's thread is not started; the harness pumps "
               "Messaging.next_msg -> Agent._handle_message itself (same calls as Agent._run).")
@@ -24,12 +24,17 @@ BUDGET = {"quick": {"workers": 4, "examples": 1200, "seconds": 40},
 op = st.one_of(
     st.tuples(st.just("recv"), st.integers(0, 2)),
     st.tuples(st.just("recv"), st.integers(0, 2)),
-    st.tuples(st.just("post"), st.just(0)),
+    st.tuples(st.just("post"), st.integers(0, 5)),
+    st.tuples(st.just("post"), st.integers(0, 5)),
     st.tuples(st.just("start"), st.just(0)),
     st.tuples(st.just("pause"), st.just(0)),
     st.tuples(st.just("resume"), st.just(0)),
     st.tuples(st.just("pump"), st.integers(1, 4)),
 )
+
+
+# (target, priority) of a post; None = default priority
+POSTS = [("peer", None), ("peer", None), ("peer2", None), ("peer", 20), ("peer2", 15), ("peer", 5)]
 
 
 def case_strategy(tier):
@@ -63,11 +68,22 @@ def run_case(case):
                     self.handled.append((sender, msg.content))
 
             agent = Agent("a1", InProcessCommunicationLayer())
-            c, peer = Rec("c"), Rec("peer")
+            c, peer, peer2 = Rec("c"), Rec("peer"), Rec("peer2")
             senders = [Rec("s%d" % i) for i in range(3)]
-            for x in [c, peer] + senders:
+            # observe what the computation really hands to the agent's messaging, in order
+            real_post = agent._messaging.post_msg
+            wire = []
+
+            def post_spy(src, dst, msg, msg_type=None, on_error=None):
+                if src == "c" and dst != "c":
+                    wire.append((dst, getattr(msg, "content", None), msg_type))
+                return real_post(src, dst, msg, msg_type, on_error)
+
+            agent._messaging.post_msg = post_spy
+            for x in [c, peer, peer2] + senders:
                 agent.add_computation(x, publish=False)
             peer.start()
+            peer2.start()
         received = []  # first reception order at c (model input)
         orig_on_message = c.on_message
 
@@ -106,9 +122,13 @@ def run_case(case):
                     agent._messaging.post_msg("s%d" % arg, "c", Message("m", counter[0]))
             elif kind == "post":
                 counter[0] += 1
-                posted.append(("c", counter[0]))
+                target, prio = POSTS[arg]
+                posted.append((target, counter[0], prio))
                 with under_test():
-                    c.post_msg("peer", Message("m", counter[0]))
+                    if prio is None:
+                        c.post_msg(target, Message("m", counter[0]))
+                    else:
+                        c.post_msg(target, Message("m", counter[0]), prio)
             elif kind == "start":
                 if not started:
                     started = True
@@ -155,9 +175,13 @@ def run_case(case):
             return Outcome(False, "handled order %r != reception order %r%s" % (
                 [p for _, p in c.handled], [p for _, p in received], " (duplicates)" if dup else ""),
                 nontrivial, labels, info=dict(info, side="recv"))
-        if peer.handled != posted:
-            return Outcome(False, "peer got posts %r, posting order was %r" % (
-                [p for _, p in peer.handled], [p for _, p in posted]), nontrivial, labels, info=dict(info, side="post"))
+        if wire != posted:
+            return Outcome(False, "messages handed to the agent (target, payload, priority) %r, posting order was %r" % (
+                wire, posted), nontrivial, labels, info=dict(info, side="post"))
+        got = sorted(p for _, p in peer.handled + peer2.handled)
+        if got != sorted(p for _, p, _ in posted):
+            return Outcome(False, "peers handled payloads %r, posted %r" % (got, sorted(p for _, p, _ in posted)),
+                           nontrivial, labels, info=dict(info, side="post"))
     except UnderTestError as e:
         return Outcome(False, "raised %s at %s" % (e, e.frame), True, labels, info={"exc": e.exc_type})
     return Outcome(True, "", nontrivial, labels, info=info)
